@@ -35,7 +35,7 @@ Definition optnat_eqb (a b : option nat) : bool :=
   | _, _ => false
   end.
 Definition msig_eqb (a b : msig) : bool :=
-  ty_eqb (m_res a) (m_res b) && argreq_eqb (m_arg a) (m_arg b)
+  ty_eqb (m_res a) (m_res b) && argreq_eqb (m_arg a) (m_arg b) && optnat_eqb (m_checked a) (m_checked b)
   && Nat.eqb (m_min a) (m_min b) && optnat_eqb (m_max a) (m_max b).
 
 (* set-like comparison of association lists / kind lists *)
